@@ -1,5 +1,6 @@
 import AasVerif.Lemmas.Fix16Main
 import AasVerif.Lemmas.Fix16Total
+import AasVerif.Lemmas.Fix16Idem
 /-!
 # C17 — UTF-16 regex rewriting preserves the language
 
@@ -186,6 +187,13 @@ theorem fix_total_and_preserves (r : Regex) (h : FixWF r)
     ∃ r', fix r = .ok r' ∧ ∀ s : Text, Scalar s → (FullMatch r' (utf16 s) ↔ FullMatch r s) := by
   obtain ⟨r', hr⟩ := fix_never_crashes r h
   exact ⟨r', hr, fun s hs => fix_preserves_partial r r' hr s hs (.inl hyp)⟩
+
+/-- The rewriting is idempotent.  The Python visitor visits the nodes it has just created
+(`for concatenant in new_concatenants: self.visit(concatenant)`); the model does not — this theorem
+is why that makes no difference: a pass over an already rewritten tree neither changes it nor
+crashes. -/
+theorem fix_idempotent (r r' : Regex) (h : fix r = .ok r') : fix r' = .ok r' :=
+  fix_idem h
 
 /-! ### Non-vacuity -/
 
